@@ -57,6 +57,9 @@ func runC06(c *Ctx) {
 	c.c06MoveBetweenKeepsItsSource()
 	c.c06NegativeDepthMeansUnlimited()
 	c.c06RefusalsBeforeChanges()
+	// Z19: "the values returned are those of the reference model": is-empty and clean answer for the tree they were given
+	c.rule("Z19", absentOnlyWhenAbsentText, 2)
+	c.c04AbsentOnlyWhenAbsent("Z19", func(f *ssa.Function) bool { return f.Name() == "IsEmpty" || strings.HasPrefix(f.Name(), "CleanDir") })
 	// Z16: hash — "the values returned … are those of the reference model": the digest of a file is the digest of its bytes,
 	// whatever they are. The file hasher streams the handle it opened into the hasher (the obligation C20/H4): reading the
 	// content through ReadFile first refuses empty files ('empty: no bytes were read').
